@@ -80,7 +80,7 @@ def task(W, payload):
             runner = I3.model.get_runner(pf, dyn_params=list(dyn), jit=False, solver="euler")
             res = runner._run_func(parameters={k: pf[k] for k in dyn})
             got = {"outputs": np.asarray(res["outputs"]).tolist(), "derived": {k: np.asarray(v).tolist() for k, v in res["derived_outputs"].items()}}
-        except Exception as e:
+        except BaseException as e:
             fail(out, "a runner with some parameters fixed at build time fails", "c09", payload, dyn=dyn, err=f"{type(e).__name__}: {e}"[:300], program=ops, params=params)
             continue
         out["evals"] += 1
@@ -100,7 +100,7 @@ def task(W, payload):
             if not same(got, refd):
                 fail(out, "default parameters do not fill in omitted values (or override supplied ones)", "c09", payload, defaults=dflt, supplied=supplied, program=ops)
             if nontrivial: out["cases"].append(h + ":defaults")
-        except Exception as e:
+        except BaseException as e:
             fail(out, "run with default parameters failed", "c09", payload, err=str(e)[:200], program=ops)
     # (d') every reported input parameter is needed: omitting it makes a fresh run fail
     for k in keys[:4]:
